@@ -2,6 +2,21 @@
 
 package cachecontroller
 
+import "time"
+
+// A run registers itself in inflightInvalidations synchronously (in the request that triggers it) but adds to
+// the WaitGroup from its own goroutine: waiting on the WaitGroup alone could return before the run has started
+// (and, with the run's Add racing the Wait, trip sync's "WaitGroup is reused" check). So first wait until no run
+// is registered, then for the WaitGroup.
+// VerifQuiesce is the variant for free-running harnesses (real clock, Go scheduler); VerifWait alone is used under
+// the controlled scheduler, where the run's goroutine is a modelled thread.
+func (c *InMemoryCacheController) VerifQuiesce() {
+	for c.VerifInflight() > 0 {
+		time.Sleep(50 * time.Microsecond)
+	}
+	c.wg.Wait()
+}
+
 // VerifWait blocks until every invalidation run started so far has completed.
 func (c *InMemoryCacheController) VerifWait() { c.wg.Wait() }
 
